@@ -105,6 +105,10 @@ class Worker:
             result.stop()      # e.g. the worker's own fail-fast logic, just before its runner breaks
         self.runlog.append((self.i, "raised", None, None, None))
 
+    def countTestCases(self):
+        # like a real suite: a partition may well hold no tests at all - its run() is called all the same
+        return self.spec["tests"]
+
     def __hash__(self):
         return id(self)
 
